@@ -198,10 +198,14 @@ def work(task):
             # partner statement: a deterministic other sentence
             others = [S.render(S.build_statement(sks[(idx * 7 + k * 13 + 1) % len(sks)], cs, S.LeafSupply(k)))
                       for k in range(1 if pairs < 100 else 2)]
+            # characters that look like line ends to str.splitlines() but are ordinary characters of the language
+            others.append(['x', '=', '"p\u2028q\x85r\x0bs\x0ct\x1cu\x1ev"'])
+            others.append(['#', 'odd', '\u2029', '\x85', '\x0c', 'comment'])
+            odd = others[-2:]
             for lay in layouts(toks):
                 for other in others:
-                    for sep in SEPS:
-                        for order in (0, 1):
+                    for sep in (SEPS if other not in odd else SEPS[:1]):
+                        for order in ((0, 1) if other not in odd else (0,)):
                             prog = (other + [sep] + lay) if order == 0 else (lay + [sep] + other)
                             res.count('programs')
                             # stray token at every position
